@@ -16,6 +16,9 @@ use std::cell::RefCell;
 use std::collections::HashMap;
 use std::mem;
 use std::num::NonZeroUsize;
+#[cfg(all(erikbrinkman_cfr_verif, loom))]
+use loom::sync::Mutex;
+#[cfg(not(all(erikbrinkman_cfr_verif, loom)))]
 use std::sync::Mutex;
 
 /// A variant of the standard regret infoset that caches the last selected external sampled strat
